@@ -571,6 +571,15 @@ pub fn root_layer_histories(thorough: bool) -> Vec<(Value, usize, u64)> {
             out.push((hist("empty", vec!["Q4"], &cfg, vec![json!({"c": c1}), json!({"c": c2})]), 1, 3));
         }
     }
+    // the last layer of the root page (node slots 62..125): two keys sharing five leading bits
+    // plus one key far away; the traced commit rewrites / deletes one of the pair
+    for pair in 0u64..32 {
+        for delete in [false, true] {
+            let (a, b, far) = (2 * pair, 2 * pair + 1, (2 * pair + 33) % 64);
+            let c2 = if delete { vec![del(b)] } else { vec![w(b, 2)] };
+            out.push((hist("empty", vec!["Q64"], &cfg, vec![json!({"c": [w(a, 1), w(b, 1), w(far, 1)]}), json!({"c": c2})]), 1, 3));
+        }
+    }
     if thorough {
         for a in 0u64..8 {
             for b in a + 1..8 {
@@ -630,8 +639,9 @@ pub fn crash_plan(prop: &str, tier: &str) -> Plan {
         hs.extend(rl);
     } else {
         hs.extend(rl.into_iter().filter(|(h, _, _)| {
-            let first = h["ops"][0]["c"].as_array().map_or(0, |a| a.iter().fold(0u32, |m, x| m | 1 << x[0].as_u64().unwrap()));
-            matches!(first, 0b0011 | 0b1100 | 0b0101)
+            let first = h["ops"][0]["c"].as_array().map_or(0, |a| a.iter().fold(0u64, |m, x| m | 1u64 << x[0].as_u64().unwrap()));
+            let q4 = h["universe"][0] == "Q4";
+            q4 && matches!(first, 0b0011 | 0b1100 | 0b0101)
         }));
     }
     if prop == "C03" || (prop == "C04" && thorough) {
